@@ -247,6 +247,7 @@ func (in *Interp) makeExternals() map[string]extFn {
 		return mkStr(out)
 	}
 	m["strings.Clone"] = func(fr *frame, a []Value) Value { return a[0] }
+	m["internal/stringslite.Clone"] = m["strings.Clone"]
 
 	// ----- internal/bytealg leaves (assembly in the real build) -----
 	idxByte := func(b []*Term, c *Term) Value {
@@ -351,6 +352,7 @@ func (in *Interp) makeExternals() map[string]extFn {
 	m["log.Default"] = func(fr *frame, a []Value) Value { return (*Value)(nil) }
 
 	in.addHarnessIntrinsics(m)
+	in.addHavocIntrinsics(m)
 	return m
 }
 
